@@ -158,14 +158,30 @@ package keeper
 
 // ---- C09: signers chosen for a signing attempt (partial Fisher-Yates over the available members) ----------
 // available members: active with a queued nonce, pairwise different (body: iterator loop, see C05)
+// C05/C09: exactly the members of the group that are active AND have a queued nonce pair, each taken from its
+// own record, in key (= member id) order. Store invariant used for distinctness: different member records of a
+// group differ (they carry their own member id, see wfMember).
+//@ spec availMember(s Store, m types.Member) Bool = m.IsActive && DEQ(s, bech32addr(m.Address)).Tail > DEQ(s, bech32addr(m.Address)).Head
+// store invariant of a group's member records: different records differ, and every record carries a valid address
+//@ spec wfGroupMembers(s Store, g Int) Bool = (forall a Bz, b Bz :: has(s, a) && has(s, b) && hasprefix(a, types.MembersStoreKey(g)) && hasprefix(b, types.MembersStoreKey(g)) && a != b ==> dec(types.Member, s[a]) != dec(types.Member, s[b]))
+//@        && (forall a Bz :: has(s, a) && hasprefix(a, types.MembersStoreKey(g)) ==> bech32ok(dec(types.Member, s[a]).Address))
 //@ func (k Keeper) GetAvailableMembers
-//@ trusted
+//@ requires wfGroupMembers(Store_tss, groupID)
+//@ ensures forall j :: 0 <= j && j < len(result) ==> availMember(Store_tss, result[j])
+//@ ensures forall j :: 0 <= j && j < len(result) ==> (exists q Bz :: has(Store_tss, q) && hasprefix(q, types.MembersStoreKey(groupID)) && result[j] == dec(types.Member, Store_tss[q]))
+//@ ensures forall q Bz :: has(Store_tss, q) && hasprefix(q, types.MembersStoreKey(groupID)) && availMember(Store_tss, dec(types.Member, Store_tss[q])) ==> (exists j :: 0 <= j && j < len(result) && result[j] == dec(types.Member, Store_tss[q]))
 //@ ensures forall i, j :: 0 <= i && i < j && j < len(result) ==> result[i] != result[j]
+//@ loop 0: invariant 0 <= itpos(iterator) && itpos(iterator) <= itlen(iterator)
+//@ loop 0: invariant forall j :: 0 <= j && j < len(availableMembers) ==> availMember(Store_tss, availableMembers[j])
+//@ loop 0: invariant forall j :: 0 <= j && j < len(availableMembers) ==> (exists p :: 0 <= p && p < itpos(iterator) && availableMembers[j] == dec(types.Member, itval(iterator, p)))
+//@ loop 0: invariant forall i, j :: 0 <= i && i < j && j < len(availableMembers) ==> availableMembers[i] != availableMembers[j]
+//@ loop 0: invariant forall p :: 0 <= p && p < itpos(iterator) && availMember(Store_tss, dec(types.Member, itval(iterator, p))) ==> (exists j :: 0 <= j && j < len(availableMembers) && availableMembers[j] == dec(types.Member, itval(iterator, p)))
 
 // Exactly Threshold pairwise different members, all taken from the available ones, or an error when there are
 // too few. Invariant of the draw loop: the live prefix memberIdx[0 .. n-i) is duplicate-free and in range, and
 // every member selected so far sits at an index that is no longer in that prefix.
 //@ func (k Keeper) GetRandomMembers
+//@ requires wfGroupMembers(Store_tss, groupID)
 //@ ensures err == nil ==> len(result) == old(groupAt(Store_tss, groupID)).Threshold
 //@ ensures err == nil ==> (forall a, b :: 0 <= a && a < b && b < len(result) ==> result[a] != result[b])
 //@ loop 0: invariant 0 <= i && i <= members_size && len(memberIdx) == members_size && (forall a :: 0 <= a && a < i ==> memberIdx[a] == a)
